@@ -951,3 +951,20 @@ func newScanner(i io.Reader) *bufio.Scanner {
 	})
 	return scanner
 }
+
+// nonNilItems returns the items that are not nil, in order: writers skip nil items the way they skip nil styles and
+// regions. The list is returned as is when it holds no nil item.
+func nonNilItems(is []*Item) []*Item {
+	for idx, i := range is {
+		if i == nil {
+			var o = append([]*Item{}, is[:idx]...)
+			for _, i := range is[idx+1:] {
+				if i != nil {
+					o = append(o, i)
+				}
+			}
+			return o
+		}
+	}
+	return is
+}
